@@ -877,7 +877,10 @@ class ExprMixin:
                 return SV(INT, el)
             if isinstance(t, TStr):
                 return self.mk_char(st, el)
-            return SV(t.elem, el)
+            r = SV(t.elem, el)
+            if isinstance(t.elem, (TRef, TOpt)) and not st.spec:
+                self.assume_wellformed(st, r)  # objects held in containers are allocated objects of their class
+            return r
         raise EngineError(f"subscript on {t!r}: {ast.unparse(node)}")
 
     def const_dict_get(self, base, idx, st, node):
